@@ -26,6 +26,68 @@ func stdEffects(name string) []int {
 	return nil
 }
 
+// errors.As targets used in the repository (dynamic types that errors.As looks for); each gets a ghost chain predicate.
+func (P *Program) errAsTargets() []types.Type {
+	P.immutMu.Lock()
+	defer P.immutMu.Unlock()
+	if P.asTargets != nil {
+		return P.asTargets
+	}
+	P.asTargets = []types.Type{}
+	seen := map[string]bool{}
+	for fn := range P.allRepoFuncs() {
+		for _, b := range fn.Blocks {
+			for _, in := range b.Instrs {
+				call, ok := in.(*ssa.Call)
+				if !ok {
+					continue
+				}
+				sf := call.Common().StaticCallee()
+				if sf == nil || sf.String() != "errors.As" || len(call.Common().Args) < 2 {
+					continue
+				}
+				if t := errAsTarget(call.Common().Args[1]); t != nil && !seen[t.String()] {
+					seen[t.String()] = true
+					P.asTargets = append(P.asTargets, t)
+				}
+			}
+		}
+	}
+	return P.asTargets
+}
+
+// errAsTarget: the type T such that errors.As(err, target) looks for a T in the chain (target has type *T).
+func errAsTarget(v ssa.Value) types.Type {
+	if mi, ok := v.(*ssa.MakeInterface); ok {
+		if pt, ok := mi.X.Type().Underlying().(*types.Pointer); ok {
+			return pt.Elem()
+		}
+	}
+	return nil
+}
+
+func errHasName(t types.Type) string {
+	return "err_has_" + sanitize(fmt.Sprintf("%x", strHash(types.TypeString(t, nil))))
+}
+
+func (tr *Tr) errHas(t types.Type, e Val) *Term {
+	return tr.f.App(errHasName(t), SBool, e[0], e[1], e[2])
+}
+
+// errChainFacts: facts about a freshly created error value e: which errors.As targets its chain contains.
+func (tr *Tr) errChainFacts(e Val, self types.Type, wrapped Val) {
+	for _, t := range tr.P.errAsTargets() {
+		switch {
+		case self != nil && types.Identical(self, t):
+			tr.assumeHere(tr.errHas(t, e), "error value has its own dynamic type in its chain")
+		case wrapped != nil:
+			tr.assumeHere(tr.f.Eq(tr.errHas(t, e), tr.f.And(tr.f.Neq(wrapped[0], tr.f.BVi(64, 0)), tr.errHas(t, wrapped))), "wrapping preserves the error chain (errors.As)")
+		default:
+			tr.assumeHere(tr.f.Not(tr.errHas(t, e)), "a plain error has no "+t.String()+" in its chain")
+		}
+	}
+}
+
 func (tr *Tr) errValue(fr *Frame, kind string) Val {
 	reg := tr.allocRegion(fr.st)
 	return Val{tr.f.BVu(64, typeID(types.NewPointer(types.Universe.Lookup("error").Type()))^strHash(kind)|1<<62), reg, tr.f.BVi(64, 0)}
@@ -105,7 +167,7 @@ func (tr *Tr) stdModel(fr *Frame, site ssa.Instruction, c *ssa.CallCommon, sf *s
 	case "errors.New":
 		tr.trust("errors.New returns a fresh non-nil error")
 		e := tr.errValue(fr, "errors.New")
-		tr.assumeHere(f.Not(f.App("err_content", SBool, e[0], e[1], e[2])), "errors.New is not a content error")
+		tr.errChainFacts(e, nil, nil)
 		return e, true
 	case "fmt.Errorf":
 		tr.trust("fmt.Errorf returns a fresh non-nil error; %w keeps the wrapped chain")
@@ -113,17 +175,22 @@ func (tr *Tr) stdModel(fr *Frame, site ssa.Instruction, c *ssa.CallCommon, sf *s
 		if w := tr.wrappedOperand(c); w != nil {
 			wv := tr.val(w)
 			if len(wv) == 3 {
-				tr.assumeHere(f.Eq(f.App("err_content", SBool, e[0], e[1], e[2]), f.App("err_content", SBool, wv[0], wv[1], wv[2])), "%w preserves errors.As")
+				tr.errChainFacts(e, nil, wv)
 			}
 		} else {
-			tr.assumeHere(f.Not(f.App("err_content", SBool, e[0], e[1], e[2])), "fmt.Errorf without %w is not a content error")
+			tr.errChainFacts(e, nil, nil)
 		}
 		return e, true
 	case "errors.As":
 		// errors.As(err, &target): modelled for targets of pointer-to-struct type in this repository via the ghost chain predicate
 		tr.trust("errors.As decided on the ghost error-chain predicate")
 		e := args[0]
-		return Val{f.And(f.Neq(e[0], z), f.App("err_content", SBool, e[0], e[1], e[2]))}, true
+		if t := errAsTarget(c.Args[1]); t != nil {
+			// the target variable is written on success
+			tr.havocReachable(fr.st, c.Args[1].Type(), args[1])
+			return Val{f.And(f.Neq(e[0], z), tr.errHas(t, e))}, true
+		}
+		return Val{f.Fresh("errors_as", SBool)}, true
 	case "errors.Is":
 		return Val{f.App("errors_is", SBool, args[0][0], args[0][1], args[1][0], args[1][1])}, true
 	case "fmt.Sprintf", "fmt.Sprint", "fmt.Sprintln":
